@@ -829,7 +829,10 @@ func run(c *fw.Ctx) {
 		r := c.Rand("wb", i)
 		book := genBook(r)
 		var cs *wbCase
-		if r.Intn(4) == 0 {
+		if k := r.Intn(20); k == 0 {
+			cs = newWBRelated(r, book, relations[r.Intn(len(relations))], positions[r.Intn(len(positions))], genSelection(r, true))
+			c.Observe("universe", "wire→backend random multiget with an href related to the request target", 1)
+		} else if k < 5 {
 			cs = newWBMultiGet(r, book, genPaths(r, book, 1), genSelection(r, true))
 			c.Observe("universe", "wire→backend random multiget", 1)
 		} else {
@@ -840,6 +843,63 @@ func run(c *fw.Ctx) {
 		if selfCheck(c, cs) {
 			execWB(c, cs)
 		}
+	}
+	// (7) multiget hrefs related to the request target: every relation at every position.
+	nLex = c.Pick(2, 8)
+	for _, target := range relTargets {
+		for _, rel := range relations {
+			for _, pos := range positions {
+				for l := 0; l < nLex; l++ {
+					i, mine := next()
+					if !mine {
+						continue
+					}
+					r := c.Rand("wb-related", i)
+					cs := newWBRelated(r, target, rel, pos, genSelection(r, true))
+					if selfCheck(c, cs) {
+						execWB(c, cs)
+					}
+					c.Observe("universe", "wire→backend multiget hrefs related to the request target (grid)", 1)
+					c.Observe("wire→backend related hrefs", rel+", "+pos, 1)
+				}
+			}
+		}
+	}
+	// (8) the library's client in front of the library's server.
+	for j, m := 0, c.Pick(1500, 30000); j < m; j++ {
+		i, mine := next()
+		if !mine {
+			continue
+		}
+		execE2E(c, genE2E(c.Rand("e2e", i)))
+		c.Observe("universe", "client→server→backend multiget", 1)
+	}
+	// (9) call sequences with nearly colliding address-data requests: every
+	// ordered pair of variants for every separator, then random sequences.
+	k := 0
+	for _, sep := range seqSeparators {
+		vs := nearCollisions([]string{"FN", "EMAIL", "TEL"}, sep)
+		for a := range vs {
+			for b := range vs {
+				if a == b {
+					continue
+				}
+				k++
+				if _, mine := next(); !mine {
+					continue
+				}
+				execSeq(c, seqPair(vs[a], vs[b], seqOps[k%3], seqOps[(k/3)%2], k%2 == 0, k))
+				c.Observe("universe", "client→wire call pairs with nearly colliding address-data (grid)", 1)
+			}
+		}
+	}
+	for j, m := 0, c.Pick(1500, 30000); j < m; j++ {
+		i, mine := next()
+		if !mine {
+			continue
+		}
+		execSeq(c, genSeq(c.Rand("seq", i)))
+		c.Observe("universe", "client→wire random call sequences (2-6 calls)", 1)
 	}
 	c.Note("exhaustive_part", "client→wire: FilterTest{\"\",anyof,allof} x PropFilter.Test (same) x MatchType{\"\",equals,contains,starts-with,ends-with} x NegateCondition x {prop-level, param-level text match} x Limit{-1,0,1,2,2^31-1}, plus is-not-defined at both levels; "+
 		"wire→backend: test{absent,anyof,allof} at both levels x match-type{absent + 4} x negate-condition{absent,no,yes} x position, each in several lexical forms; "+
@@ -868,6 +928,18 @@ func replay(c *fw.Ctx, w json.RawMessage) {
 		var rc reuseCase
 		if json.Unmarshal(raw, &rc) == nil {
 			execReuse(c, &rc)
+		}
+		return
+	case d.Family == "sequence":
+		var sq seqCase
+		if json.Unmarshal(raw, &sq) == nil {
+			execSeq(c, &sq)
+		}
+		return
+	case d.Family == "client-to-backend":
+		var ec e2eCase
+		if json.Unmarshal(raw, &ec) == nil && ec.MultiGet != nil {
+			execE2E(c, &ec)
 		}
 		return
 	case d.Family == "overlap":
@@ -907,6 +979,8 @@ func init() {
 		Rule: "client→wire: carddav.Client.QueryAddressBook/MultiGetAddressBook against a capturing HTTP client; the independent rfc6352 reader must accept the body (namespaces, names, child order, enumerations, positive nresults) and decode the caller's request (defaults normalised). " +
 			"wire→backend: the independent rfc6352 writer + xmltree.Render(FullLex) produce conformant documents served by the real carddav.Handler; the recording backend must receive the denoted request; invalid enumeration values must be answered 4xx without a backend query. " +
 			"Around every client call the caller's argument is deep-compared (slices up to capacity, marked spare elements): it must be unchanged. Reuse family: one request value passed to 2-3 successive calls on different collections, each captured request checked against the pristine value on that call's collection. Overlap family: 2-8 goroutines call through one client whose HTTP client parks all requests until everyone arrived, then reads the bodies in a seeded order (GOMAXPROCS 1 and 4); each body must denote its own caller's request; reuse/overlap findings are reported only when the same call alone is clean. " +
+			"Related-href family: multiget hrefs equal to the request target, equal modulo trailing slash, parent, child, sibling, absolute-URI and fully percent-encoded spellings, at every position (only/first/middle/last/duplicated) for collection and object targets; client-to-backend family: MultiGetAddressBook (Paths nil/empty/self-listing/ordinary) through the real handler, backend hrefs compared with the wire document and the caller's value. " +
+			"Sequence family: every ordered pair (per separator , ; space empty | :) and random 2-6 call sequences of nearly colliding address-data requests (re-splits of one concatenation, reorderings, duplicates, prefixes, case variants, AllProp vs literal *, nil vs empty, key look-alikes) across query/multiget/sync-collection and across clients in one process; each request checked against its own call's argument. " +
 			"Generators: 0-4 prop-filters x 0-3 text-matches x 0-2 param-filters, all flags, hostile names/texts, limits -1/0/1/2/large, prop selections, href lists 0-20 with hostile names. " +
 			"distinct_nontrivial counts abstract classes: direction, operation, filter test, #prop-filters, max #text-matches, max #param-filters, flag set (is-not-defined, negate, non-default test/match type, blank-edged/metacharacter/non-ASCII names and texts), limit class, selection class; for multiget: href count bucket and hostile character classes.",
 		Assumptions: []string{
